@@ -20,3 +20,15 @@ Fixpoint insert_u (x : Z) (l : list Z) : list Z :=
   | y :: t => if x <? y then x :: l else if x =? y then l else y :: insert_u x t
   end.
 Definition sort_uniq (l : list Z) : list Z := fold_right insert_u [] l.
+
+(* Python indexing of a 1-d integer array: x[i] with negative i counting from the end; x[i] = v *)
+Definition lget (l : list Z) (i : Z) : Z :=
+  nth (Z.to_nat (if i <? 0 then Z.of_nat (length l) + i else i)) l 0.
+Definition lset (l : list Z) (i : Z) (v : Z) : list Z :=
+  set_nth l (Z.to_nat (if i <? 0 then Z.of_nat (length l) + i else i)) v.
+Definition lsize (l : list Z) : Z := Z.of_nat (length l).
+
+(* tags for the regenerated decision trees of Recfile.read and SFile.read (Gen.v) *)
+Inductive read_path := RPColumns | RPSlice (a b c : Z).     (* self._read_columns(colnums, rows) | self._read_binary_slice(slice(a,b,c)) *)
+Inductive shape_tag := SPlain | STuple | STable.            (* result[fields] | split_fields(result) | result *)
+Inductive post_tag := PSplit | PReduce | PNone.             (* split_fields(result) | reduce_array(result) | result *)
